@@ -3,6 +3,7 @@ package govc
 // `govc check --property Cxx --tier quick|thorough`: the registered check.
 
 import (
+	"regexp"
 	"encoding/json"
 	"flag"
 	"fmt"
@@ -114,7 +115,7 @@ func cmdCheck(args []string) int {
 	baseSet := map[string]bool{}
 	for fn, obs := range base.Props[*prop] {
 		for _, o := range obs {
-			baseSet[fn+"#"+o] = true
+			baseSet[fn+"#"+normObl(o)] = true
 		}
 	}
 
@@ -255,7 +256,7 @@ func cmdCheck(args []string) int {
 			nObl++
 			rep.Obligations++
 			rep.Failed = append(rep.Failed, full+":"+o.Result)
-			inBase := baseSet[f.res.Key+"#"+full]
+			inBase := baseSet[f.res.Key+"#"+normObl(full)]
 			// replay
 			rfile := filepath.Join(outDir, "replays", *prop, safeName(f.res.Short+"#"+full)+".json")
 			var rr ReplayResult
@@ -391,6 +392,11 @@ func cmdCheck(args []string) int {
 		*prop, len(reports), nObl, nDis, nKnown, violations, len(undecided), nVacOK, nVac, wall)
 	return exit
 }
+
+var oblOrdinalRe = regexp.MustCompile(`(\.x\d+|\.e\d+|#\d+)`)
+
+// normObl: obligation name without path/exit/call-site ordinals, which shift when code is edited.
+func normObl(s string) string { return oblOrdinalRe.ReplaceAllString(s, "") }
 
 func round3(f float64) float64 { return float64(int64(f*1000+0.5)) / 1000 }
 
